@@ -220,6 +220,12 @@ def handle : Handler
     match optArg unhexStr h with
     | some h => some (exc (outOpt strList) (requestAccessControlRequestHeaders h))
     | none => some badArgs
+  | "nf.etags", [h] => withStr h fun h =>
+    let p := parseEtags h
+    etagsOut p ++ "#" ++ etagsOut (parseEtags (etagsToHeader p))
+  | "nf.list", [h] => withStr h fun h =>
+    let p := parseListHeader h
+    strList p ++ "#" ++ strList (parseListHeader (dumpHeaderList p))
   | "date.fmt", [t] =>
     match natArg t with
     | some t => some (hexStr (Wz.Date.httpDate t))
